@@ -134,6 +134,9 @@ class CayleyGraphDef:
         else:
             raise ValueError('Unsupported format for "generators" ' + str(type(generators)))
 
+        # Entries become Python ints (narrow NumPy integers would overflow in later index arithmetic).
+        generators_list = [[int(x) for x in perm] for perm in generators_list]
+
         # Validate generators.
         n = len(generators_list[0])
         id_perm = list(range(n))
